@@ -13,8 +13,29 @@ def pred_game(rng, kind=None, stratum=None, n=None, maxsize=8):
     kind = kind or rng.choice(KINDS)
     beta, kappa, tau = gen_config(rng)
     stratum = stratum or rng.choice(["typical", "typical", "wide", "corners", "mismatch", "identical", "identical", "equalsize", "tiny-sigma", "equal-ordinal",
-                                     "near-identical", "near-identical", "zero-sigma", "newcomers", "crushing", "hash-collide"])
-    if stratum == "hash-collide":
+                                     "near-identical", "near-identical", "zero-sigma", "newcomers", "crushing", "hash-collide", "ragged", "ragged"])
+    if stratum == "ragged":
+        # lobbies whose players share values while the teams differ in size: (a) everybody holds one rating; (b) one sigma, different mu;
+        # (c) the library's default sigma 25/3 with non-default mu; (d) some mu exactly 0.0 (a falsy number) — next to teams of other sizes
+        n = n or rng.randint(2, 5)
+        beta = core.DEFAULTS["beta"]
+        var = rng.choice("abcd")
+        sizes = [rng.randint(1, min(4, maxsize)) for _ in range(n)]
+        if len(set(sizes)) == 1:
+            sizes[0] = sizes[0] % min(4, maxsize) + 1 if maxsize > 1 else 1
+        one = rng.choice([(25.0, 25.0 / 3.0), (rng.gauss(25, 6), rng.uniform(1, 9))])
+        sg = rng.choice([25.0 / 3.0, rng.uniform(1, 9)])
+        teams = []
+        for k_ in sizes:
+            if var == "a":
+                teams.append([one] * k_)
+            elif var == "b":
+                teams.append([(rng.gauss(25, 6), sg) for _ in range(k_)])
+            elif var == "c":
+                teams.append([(rng.choice([30.0, 20.0, 27.5, rng.gauss(25, 6)]), 25.0 / 3.0) for _ in range(k_)])
+            else:
+                teams.append([(0.0 if rng.random() < 0.5 else rng.gauss(3, 6), rng.uniform(1, 9)) for _ in range(k_)])
+    elif stratum == "hash-collide":
         # team totals that differ although their Python hashes coincide (hash(-1.0) == hash(-2.0), hash(-1) == hash(-2), hash(1.0) ==
         # hash(2.0**61)): values are never to be told apart, or identified, through hash()
         n = n or rng.randint(3, 5)
